@@ -66,14 +66,14 @@ impl GrammarSys {
             timeout,
             cap: cap_for(timeout, 1),
             values: values.to_vec(),
-            others: vec![(0x90 | ch, 6, 38), (0xB0 | ch, 7, 6), (0xF8, 0, 0)],
+            others: noncontrib_small::<PollingParameterNumberMessageScanner>(ch),
         }
     }
     fn tname(&self) -> String {
         if self.timeout >= T_INF { "inf".into() } else { format!("{}ms", self.timeout) }
     }
-    fn vio(&self, rule: &str, cls: &str, detail: String) -> Violation {
-        Violation::new(rule, format!("C12/{}/{}/T={}", rule, cls, self.tname()), detail)
+    fn vio(&self, rule: &str, cls: &str, detail: impl FnOnce() -> String) -> Violation {
+        Violation::lazy(rule, format!("C12/{}/{}/T={}", rule, cls, self.tname()), detail)
     }
     fn msg7(&self, msb: u8, lsb: u8, reg: bool, v: u8) -> Tup {
         [self.ch as u32, msb as u32 * 128 + lsb as u32, v as u32, reg as u32, 0, 0]
@@ -164,7 +164,7 @@ impl GrammarSys {
         let got: Vec<Tup> = got.iter().flatten().cloned().collect();
         if got != want {
             let cls = if got.len() < want.len() { "missing" } else if got.len() > want.len() { "extra" } else { "wrong-content" };
-            v.push(self.vio("reports-exactly-the-intended-messages", &format!("{}/{}", what, cls), format!("{} in grammar state {:?}: reported {:?}, the documented forms intend {:?}", what, g, got.iter().map(pnm_str).collect::<Vec<_>>(), want.iter().map(pnm_str).collect::<Vec<_>>())));
+            v.push(self.vio("reports-exactly-the-intended-messages", &format!("{}/{}", what, cls), || format!("{} in grammar state {:?}: reported {:?}, the documented forms intend {:?}", what, g, got.iter().map(pnm_str).collect::<Vec<_>>(), want.iter().map(pnm_str).collect::<Vec<_>>())));
         }
     }
 }
@@ -280,8 +280,13 @@ impl System for GrammarSys {
 // part two: encode -> feed -> poll after the timeout, from arbitrary prior states
 // ---------------------------------------------------------------------------------------------
 
-fn vio2(chk: &Check, rule: &str, cls: &str, case: String, detail: String) {
-    chk.violate(Violation::new(rule, format!("C12/{}/{}", rule, cls), detail).with_case(case));
+macro_rules! vio2 {
+    ($chk:expr, $rule:expr, $cls:expr, $case:expr, $detail:expr) => {{
+        let sig = format!("C12/{}/{}", $rule, $cls).replace(' ', "_");
+        if !$chk.flooded(&sig) {
+            $chk.violate(Violation::new($rule, sig, $detail).with_case($case));
+        }
+    }};
 }
 
 /// From prior state (sc at time now, with `flush` = the 7-bit message the history observer
@@ -307,7 +312,7 @@ fn roundtrip(chk: &Check, sc0: &PollingParameterNumberMessageScanner, now: u64, 
     let ok = outs == vec![want] || (flush.is_some() && outs == vec![flush.unwrap(), want]);
     if !ok {
         let cls = if !outs.contains(&want) { "original-not-reported" } else if outs.len() > 1 + flush.is_some() as usize { "extra-reports" } else { "unexpected-leading-report" };
-        vio2(chk, "encode-feed-poll-reports-exactly-the-message", &format!("{:?}/{}/{}", p.kind, if lsb_first { "LsbFirst" } else { "MsbFirst" }, cls), label(),
+        vio2!(chk, "encode-feed-poll-reports-exactly-the-message", &format!("{:?}/{}/{}", p.kind, if lsb_first { "LsbFirst" } else { "MsbFirst" }, cls), label(),
             format!("prior state {}; encoding {:?} ({}), feeding it and polling after the timeout reported {:?}; expected [{}]{}", label(), p, if lsb_first { "LSB first" } else { "MSB first" }, outs.iter().map(pnm_str).collect::<Vec<_>>(), pnm_str(&want), if let Some(f) = flush { format!(" optionally preceded by the flush {}", pnm_str(&f)) } else { String::new() }));
     }
 }
@@ -371,7 +376,7 @@ pub fn run_c12(chk: &Check, tier: Tier) {
                     }
                 });
                 if let Err(e) = r {
-                    vio2(chk, "panics-on-valid-input", "roundtrip", format!("c12rt|state{}", si), format!("encode/feed/poll from state #{} panicked: {}", si, e));
+                    vio2!(chk, "panics-on-valid-input", "roundtrip", format!("c12rt|state{}", si), format!("encode/feed/poll from state #{} panicked: {}", si, e));
                 }
                 n2.fetch_add(2 * msgs.len() as u64, Ordering::Relaxed);
                 if st.ob.owed.is_some() {
@@ -413,7 +418,7 @@ pub fn run_c12(chk: &Check, tier: Tier) {
                         })
                     });
                     if let Err(e) = r {
-                        vio2(chk, "panics-on-valid-input", "roundtrip-dirty", format!("c12dirty|{}", name), format!("encode/feed/poll from dirty state {} panicked: {}", name, e));
+                        vio2!(chk, "panics-on-valid-input", "roundtrip-dirty", format!("c12dirty|{}", name), format!("encode/feed/poll from dirty state {} panicked: {}", name, e));
                     }
                     n2.fetch_add(2 * set.len() as u64, Ordering::Relaxed);
                 }
